@@ -570,6 +570,32 @@ func runEveryByte() {
 		})
 }
 
+// runLongRuns: every writer x every byte value 0..127 (and 0xE9, 0xF1, 0xFF as runes) repeated 20, 40, 41,
+// 60, 79, 80, 81 times, alone and behind / in front of one letter: weighted check-character sums,
+// run counters and width computations reach their largest values with long runs of ONE
+// high-valued character, which no short string and no mixed long text contains.
+func runLongRuns() {
+	var chars []string
+	for b := 0; b < 128; b++ {
+		chars = append(chars, string(rune(b)))
+	}
+	chars = append(chars, "\u00e9", "\u00f1", "\u00ff")
+	lens := []int{20, 40, 41, 60, 79, 80, 81}
+	chk.Range(fmt.Sprintf("every writer x %d characters (every ASCII value, three Latin-1 runes) repeated %v times, alone, behind 'A' and in front of 'A'", len(chars), lens), len(chars),
+		func(i int) string { return fmt.Sprintf("%q", chars[i]) },
+		func(l *mc.Local, i int) {
+			for _, wd := range writers {
+				for _, n := range lens {
+					for _, wrap := range []string{"%s", "A%s", "%sA"} {
+						content := strings.Replace(wrap, "%s", strings.Repeat(chars[i], n), 1)
+						c := concrete{wd: wd, format: wd.format, content: content, w: 0, h: 0, hints: map[gozxing.EncodeHintType]interface{}{}, labels: map[string]string{"content": fmt.Sprintf("%q x %d in %q", chars[i], n, wrap)}}
+						run(l, c, "longrun")
+					}
+				}
+			}
+		})
+}
+
 func runShortStrings() {
 	// every writer x all strings of length <= 2 (quick) / 3 over a class alphabet, default call otherwise
 	alpha := []string{"0", "7", "A", "D", "a", "*", "$", "+", "%", "/", "-", ".", " ", ":", "\x00", "\x1d", "\x7f", "ñ", "é", "\xff", "日"}
@@ -620,6 +646,7 @@ func main() {
 	runDMLongRuns()
 	runHugeCanvases()
 	runShortStrings()
+	runLongRuns()
 	runCode128Product()
 	runMarginProduct()
 	runSizeProduct()
